@@ -1,4 +1,4 @@
-import DcmVerif.Proofs.Key
+import DcmVerif.Proofs.Total
 /-! Property theorems for C05. Statements only; proofs are by reference to `Proofs/`. -/
 set_option autoImplicit false
 open Cls
@@ -45,5 +45,31 @@ theorem canon_class_unique (sh : Shp) (wf : WF sh) (hsl : sh.hasSlice = true) (c
     (heq : ∀ s t v, s < sh.S → t < sh.T → v < sh.V →
       lookupK sh c v1 s t v = lookupK sh c v2 s t v) : v1 = v2 :=
   _root_.same_class_unique sh wf hsl c v1 v2 h1 h2 heq
+
+/-! ### without premises (`Proofs/Total.lean`): every split and the merge succeed, and the result is
+the original key -/
+
+theorem split_merge_slice_total (null : α) (sh : Shp) (hc : Consistent sh) (hS2 : 2 ≤ sh.S)
+    (hV2 : sh.hasVector = true → 2 ≤ sh.V)
+    (ks : KeyState α) (hv : ValidK sh ks) (hcan : Canonical null sh ks) :
+    ∃ (pieces : Nat → KeyState α) (r : KeyState α),
+      (∀ i, i < sh.S → subsetSliceK null sh ks i = .ok (pieces i)) ∧
+      mergeSliceK null sh ((List.range sh.S).map pieces) = .ok r ∧ r = ks :=
+  Total.split_merge_slice_total null sh hc hS2 hV2 ks hv hcan
+
+theorem split_merge_time_total (null : α) (sh : Shp) (hc : Consistent sh) (h4 : sh.nd = 4)
+    (ks : KeyState α) (hv : ValidK sh ks) (hcan : Canonical null sh ks) :
+    ∃ (pieces : Nat → KeyState α) (r : KeyState α),
+      (∀ i, i < sh.T → subsetTimeK null sh ks i = .ok (pieces i)) ∧
+      mergeTimeK null sh (timeSubsetShp sh) ((List.range sh.T).map pieces) = .ok r ∧ r = ks :=
+  Total.split_merge_time_total null sh hc h4 ks hv hcan
+
+theorem split_merge_vector_total (null : α) (sh : Shp) (hc : Consistent sh) (h5 : sh.nd = 5)
+    (hV2 : 2 ≤ sh.V)
+    (ks : KeyState α) (hv : ValidK sh ks) (hcan : Canonical null sh ks) :
+    ∃ (pieces : Nat → KeyState α) (r : KeyState α),
+      (∀ i, i < sh.V → subsetVecK null sh ks i = .ok (pieces i)) ∧
+      mergeVecK null sh (vecSubsetShp sh) ((List.range sh.V).map pieces) = .ok r ∧ r = ks :=
+  Total.split_merge_vec_total null sh hc h5 hV2 ks hv hcan
 
 end C05
